@@ -442,6 +442,93 @@ class Check:
         return 1 if self.violations else 0
 
 
+
+# ------------------------------------------------------------------------------------------
+# the standard pipeline pieces (MC run -> cases; events -> trace validation)
+# ------------------------------------------------------------------------------------------
+
+def mc_cases(chk, module, cfg_edits=None, actions=(), workers=8, timeout=3000, heap="8g", env=None, cfg=None):
+    """Model-check spec/<module> (after textual edits of its .cfg, e.g. bounds per tier), insist that the
+    named actions were taken (vacuity), return the dumped cases (each gets a `case` id)."""
+    specdir = _spec_copy(chk.work)
+    cfgname = cfg or module
+    if cfg_edits:
+        path = os.path.join(specdir, cfgname + ".cfg")
+        with open(path) as f:
+            txt = f.read()
+        for a, b in cfg_edits.items():
+            if a not in txt:
+                raise ToolError(f"{cfgname}.cfg: cannot find {a!r}")
+            txt = txt.replace(a, b)
+        with open(path, "w") as f:
+            f.write(txt)
+    cases_file = os.path.join(chk.work, f"cases-{module}.ndjson")
+    e = {"OUT": cases_file}
+    if env:
+        e.update(env)
+    res = run_tlc(chk.work, module, cfg=cfgname, env=e, workers=workers, timeout=timeout, heap=heap)
+    if res["invariant_violated"]:
+        raise ToolError(f"{module}: the model violates one of its own invariants (see {res['log']}): the "
+                        "specification is inconsistent with its Level-1 transcription; this is a defect of the "
+                        "model, not an observation of the code")
+    need_ok(res, module)
+    chk.add_tlc(res, module)
+    chk.vacuity(res, actions)
+    cases = read_ndjson(cases_file) if os.path.exists(cases_file) else []
+    for n, c in enumerate(cases):
+        c["case"] = f"{n:06d}"
+    return cases, res
+
+
+def validate(chk, module, events, env=None, timeout=1800, name=None):
+    """Feed `events` to the trace specification spec/<module>; returns (bad, drift) as TLC computed them."""
+    name = name or module
+    trace = os.path.join(chk.work, f"trace-{name}.ndjson")
+    write_ndjson(trace, events)
+    bad_file = os.path.join(chk.work, f"bad-{name}.ndjson")
+    drift_file = os.path.join(chk.work, f"drift-{name}.ndjson")
+    for f in (bad_file, drift_file):
+        if os.path.exists(f):
+            os.remove(f)
+    e = {"TRACE": trace, "OUT": bad_file, "DRIFT": drift_file}
+    if env:
+        e.update(env)
+    if not os.path.isdir(os.path.join(chk.work, "spec")):
+        _spec_copy(chk.work)
+    res = run_tlc(chk.work, module, env=e, workers=1, timeout=timeout, coverage=False, deque=True, tag=name)
+    need_ok(res, module)
+    if not os.path.exists(bad_file):
+        raise ToolError(f"{module}: trace not accepted to the end (POSTCONDITION did not write verdicts), log {res['log']}")
+    chk.add_tlc(res, name)
+    chk.cov["traces_validated_against_impl"] += len(events)
+    return read_ndjson(bad_file), read_ndjson(drift_file)
+
+
+def records_by_case(chk, dump_file, name="obs"):
+    recs = project(dump_file, os.path.join(chk.work, name + ".ndjson"))
+    by_case = {}
+    for rec in recs:
+        cid = case_of_file(rec["file"])
+        if cid is not None:
+            by_case.setdefault(cid, []).append(rec)
+    return by_case, recs
+
+
+def name_rec(text):
+    raw = text.startswith("r#")
+    return {"raw": raw, "base": text[2:] if raw else text, "lc": text[:1].islower()}
+
+
+def report_drift(chk, drift, describe=None):
+    cases = {d["case"] for d in drift}
+    chk.cov["drift"] += len(cases)
+    for d in drift[:5]:
+        log(f"SPEC-DRIFT {chk.pid} case={d['case']} field={d['field']} {describe(d) if describe else ''}")
+    if drift:
+        log(f"SPEC-DRIFT {chk.pid}: {len(drift)} fields on {len(cases)} cases differ from Level 2's prediction "
+            "(reported, not a violation: the code no longer does what the implementation-shaped model says)")
+
+
 def main_wrapper(fn):
     try:
         rc = fn()
